@@ -63,7 +63,7 @@ TEXT["C08"] = dict(
     text="Coq theorems on the timed models: for ANY network script the parallel engine returns before timeout + delay*count + poll and the serial engine within count*max(timeout+poll, delay); with the caller's context cancelled at any "
          "instant the receiver leaves within one poll interval and the sender within one send delay; GetPublicIP ends within providers x per-checker timeout for ANY provider behaviour; constants regenerated from source. "
          "Correspondence: real engines (incl. cancellation at arbitrary instants), real GetPublicIP over a stalling RoundTripper and real reverse-DNS fan-out over a stalled resolver, elapsed virtual time compared exactly.",
-    note="PARTIAL: oracles — Source.Read returns by its deadline; HTTP client / resolver return by the deadline of the context they are given. SACK dial + handshake-read bounds and the RunTraceroute-level sum are stated in DESIGN but not yet modelled; serial-engine cancellation is checked on the implementation only.",
+    note="PARTIAL: oracles — Source.Read returns by its deadline; HTTP client / resolver return by the deadline of the context they are given. The SACK handshake reader is modelled with time and bounded by its single 500 ms deadline for every packet stream (real reader compared under the virtual clock); the whole SACK run is bounded by composition (dial under the run context is an oracle). The RunTraceroute-level sum is not modelled; serial-engine cancellation is checked on the implementation only.",
     technique="Coq proof (fuel-indexed induction on timed engine models, bound invariant) + differential timing of the real code under synctest's virtual clock")
 
 _DRVNOTE = ("Tie kind B. The byte-level decoders/builders model third-party gopacket code and are validated, not verified; the theorems are about the matchers' logic on the parsed view plus the decoders' totality. "
@@ -73,7 +73,7 @@ TEXT["C01"] = dict(text="Coq theorems, all variants / tables / packets / clocks:
     technique="Coq proof (case analysis of the matchers against an independent genuineness predicate) + differential run of the real drivers over the full perturbation lattice")
 TEXT["C02"] = dict(text="Coq theorem: every packet whose parsed view is a genuine reply to the probe with TTL t yields the hop (t, responder, right destination flag) — with soundness, the matcher decides exactly `genuine`. "
     "Correspondence: every catalogue form built by independent builders from the emitted probe bytes must be recognised with the expected TTL and responder, for every variant incl. strict/relaxed and ISN/base wrap-around.",
-    note=_DRVNOTE + " Byte-level completeness is proved for all field values for the main IPv4 forms (ICMP error quoting 28 bytes of the probe the model builder emits, echo reply, direct TCP reply) through the whole receive path, and the engine lift (every reply readable by the deadline for a sent TTL is accepted, any script) is proved for the parallel engine. PARTIAL: IPv6 forms, IP options / extension headers, longer quotes and the serial engine lift are correspondence-only.",
+    note=_DRVNOTE + " Byte-level completeness is proved for all field values for the main IPv4 forms (ICMP error quoting 28 bytes of the probe the model builder emits, echo reply, direct TCP reply) and IPv6 forms (ICMPv6 time-exceeded quoting the whole probe, echo reply, UDP errors) through the whole receive path, and the engine lift (every reply readable by the deadline for a sent TTL is accepted, any script) is proved for the parallel engine. PARTIAL: IP options / extension headers, RFC 4884 forms, truncated IPv6 quotes, TCP over IPv6, SACK forms and the serial engine lift are correspondence-only.",
     technique="Coq proof (matcher = genuineness predicate, both directions) + differential run of the real drivers on an independently built device catalogue")
 TEXT["C04"] = dict(text="Coq theorems: destination flag = the protocol's proof-of-arrival predicate on the packet used; a reply from any non-target address is never proof of arrival; a time-exceeded never marks the destination for ICMP/TCP SYN; e2e RTT = destination hop's RTT or 0. "
     "Correspondence: each destination-form reply from the target, from a router and (lattice) from other addresses with identical identifiers, through the real drivers; e2e value through the real RunTraceroute.", note=_DRVNOTE,
